@@ -63,3 +63,25 @@ Lemma subset_witness :
               && zl_eqb (map (shift_closed NP1) subset_orig) [0; 0; 1; 1]
   | None => false end = true.
 Proof. vm_compute. reflexivity. Qed.
+
+(* F-C08-b: the canonical NPultra table in the geometry-map encoding has no on-grid geometry *)
+Lemma npultra_geom_canonical :
+  match canonical_sites NPU 1 with
+  | Some sites =>
+      match geometry NPU ShankMap sites None false, geometry NPU GeomMap (map (geom_entry NPU) sites) None false with
+      | Some _, None => true
+      | _, _ => false
+      end
+  | None => false
+  end = true.
+Proof. vm_compute. reflexivity. Qed.
+
+(* the fallback without a site table: for NP2.4 a single-shank layout, and for NP2 not in sorted order *)
+Lemma default_facts :
+  match geometry_default NP24, geometry_default NP21 with
+  | Some (t, inds), Some (t1, _) =>
+      zl_eqb (g_shank t) (zeros NC) && zl_eqb inds (zrange NC) &&
+      negb (zl_eqb (lexsort t1) (zrange NC))
+  | _, _ => false
+  end = true.
+Proof. vm_compute. reflexivity. Qed.
